@@ -50,6 +50,8 @@ func main() {
 			o = sat.Numeric(*seed, *n)
 		case "http":
 			o = sat.HTTP(*seed, *n)
+		case "helpers":
+			o = sat.Helpers(*seed, *n)
 		default:
 			fmt.Fprintln(os.Stderr, "unknown family", *family)
 			os.Exit(2)
